@@ -18,7 +18,9 @@ RULE = ("three families. vmdk: gen_vmdk.gen_disk — 1..8 extents of mixed kinds
         "quote-like characters, optional fields, CRLF, ddb entries) or explicit handle lists; requests straddling every extent "
         "boundary and the tail. hdd: Parallels directories with 1..4 storages (plain / expanding images, XML order shuffled). "
         "line: extent lines rendered from abstract extents plus adversarial lines, parsed by the live regex and by the Lean "
-        "regex model translated from it. Non-trivial = ≥ 2 extents/storages and a request crossing a boundary (disk families), "
+        "regex model translated from it, and by the direct parser proved equal to it (compared inside the driver on every line, "
+        "with its soundness check Raw.line = line ∧ validb); abstract extents (≈ 2/3 inside wfExtent) printed by printExtentLine "
+        "and by an f-string, parsed back by both sides (instances of extent_line_roundtrip). Non-trivial = ≥ 2 extents/storages and a request crossing a boundary (disk families), "
         "or a line with ≥ 5 fields / special characters (line family); distinct recipe hash.")
 ASSUMPTIONS = ["Python `re` backtracking semantics as implemented in Hv/Prim/Regex.lean (checked on every run against the live regex)",
                "str.strip / str.isspace / \\d tables extracted from the running interpreter", "pathlib name resolution (real temp directories on the implementation side)"]
@@ -84,6 +86,37 @@ def gen_lines(rng, n):
     return out
 
 
+SPEC_TOK = [None, None, "uuid-1", "part-uuid", "x", "123", "٣٤", 'a"b', "12a", "a b", "", "0", "é=#"]
+
+
+def gen_specs(rng, n):
+    """abstract extents for the round-trip theorem (extent_line_roundtrip): about two thirds inside `wfExtent`"""
+    out = []
+    for _ in range(n):
+        name = rng.choice(WEIRD + ["", 'a"b c', "x=y #z", "nl\nx"]) if rng.random() < 0.5 else "".join(rng.choice("abcXYZ019 ._-=#") for _ in range(rng.randrange(1, 20)))
+        uu = rng.choice(SPEC_TOK) if rng.random() < 0.5 else rng.choice([None, "uuid-1"])
+        dv = rng.choice(SPEC_TOK) if rng.random() < 0.3 else (rng.choice([None, "dev-id"]) if uu is not None else None)
+        out.append({"acc": rng.choice(ACCESS + ["rw"] * (rng.random() < 0.05)), "sec": rng.choice([0, 1, 63, 4192256, 2 ** 32, 10 ** 12, rng.getrandbits(40)]),
+                    "ty": rng.choice(TYPES + ["FLATX"] * (rng.random() < 0.05)), "fn": None if rng.random() < 0.15 else name,
+                    "st": rng.choice([None, 0, 2048, rng.getrandbits(33)]), "uu": uu, "dv": dv})
+    return out
+
+
+def render_spec(sp):
+    line = f'{sp["acc"]} {sp["sec"]} {sp["ty"]}'
+    if sp["fn"] is not None:
+        line += f' "{sp["fn"]}"'
+    for k in ("st", "uu", "dv"):
+        if sp[k] is not None:
+            line += f" {sp[k]}"
+    return line
+
+
+def spec_cmd(sp):
+    o = lambda v: "N" if v is None else "S" + hexs(v)  # noqa: E731
+    return f'desc.roundtrip {hexs(sp["acc"])} {sp["sec"]} {hexs(sp["ty"])} {o(sp["fn"])} {"N" if sp["st"] is None else sp["st"]} {o(sp["uu"])} {o(sp["dv"])}'
+
+
 def gen_desc_text(rng):
     """a descriptor text with awkward but legal content"""
     lines = ["# Disk DescriptorFile", "version=1", f"CID={rng.getrandbits(32):08x}", "parentCID=ffffffff",
@@ -143,7 +176,7 @@ def generate(seed, tier):
                       "queries": [["s", 0, 2]] + gen_hdd.gen_queries(rng, t, 8 if tier == "quick" else 14)})
     nl = 100 if tier == "quick" else 2500
     for i in range(nl):
-        cases.append({"id": f"l{i}", "fam": "line", "recipe": {"lines": gen_lines(rng, 200), "texts": [gen_desc_text(rng) for _ in range(40)]}, "align": 8192, "queries": []})
+        cases.append({"id": f"l{i}", "fam": "line", "recipe": {"lines": gen_lines(rng, 200), "texts": [gen_desc_text(rng) for _ in range(40)], "specs": gen_specs(rng, 60)}, "align": 8192, "queries": []})
     return cases
 
 
@@ -197,7 +230,9 @@ def build(case):
 def impl_run(case, built):
     fam = case["fam"]
     if fam == "line":
-        return {"answers": [impl_line(l) for l in case["recipe"]["lines"]] + [impl_desc(t) for t in case["recipe"].get("texts", [])]}
+        r = case["recipe"]
+        return {"answers": [impl_line(l) for l in r["lines"]] + [impl_desc(t) for t in r.get("texts", [])]
+                + [f"rt {hexs(render_spec(sp))} {impl_line(render_spec(sp))}" for sp in r.get("specs", [])]}
     tmp = tempfile.mkdtemp(prefix="hvc10.")
     try:
         if fam == "vmdk":
@@ -218,7 +253,12 @@ def model_lines(case, built):
     fam = case["fam"]
     a = case["align"]
     if fam == "line":
-        return [f"desc.line {hexs(l)}" for l in case["recipe"]["lines"]] + [f"desc.parse {hexs(t)}" for t in case["recipe"].get("texts", [])]
+        r = case["recipe"]
+        # per line: the regex model, then the direct parser (compared with the regex model inside the driver: `same=`,
+        # and its own soundness `Raw.line = line ∧ validb`: `sound=`); per text: DiskDescriptor.parse; per abstract extent:
+        # wfExtent, the printed line, and whether the regex model parses it back (`rt=`)
+        return ([f"desc.line {hexs(l)}" for l in r["lines"]] + [f"desc.parse {hexs(t)}" for t in r.get("texts", [])]
+                + [spec_cmd(sp) for sp in r.get("specs", [])] + [f"desc.linedirect {hexs(l)}" for l in r["lines"]])
     toks = " ".join(core.op_tokens(case["queries"]))
     if fam == "vmdk":
         t = built.t
@@ -240,7 +280,30 @@ def model_lines(case, built):
 
 def model_parse(case, built, out):
     if case["fam"] == "line":
-        return {"answers": list(out), "wf": True}
+        r = case["recipe"]
+        nl, nt, ns = len(r["lines"]), len(r.get("texts", [])), len(r.get("specs", []))
+        out = list(out)
+        ans = out[:nl + nt]
+        inside = 0
+        for o in out[nl + nt:nl + nt + ns]:
+            f = o.split(" ", 3)
+            if len(f) == 4 and f[0] in ("wf=0", "wf=1") and f[2].startswith("line="):
+                if f[0] == "wf=1":
+                    inside += 1
+                    if f[1] != "rt=1":        # an instance of extent_line_roundtrip fails in the model
+                        ans.append("SPEC-MISMATCH " + o)
+                        continue
+                ans.append(f"rt {f[2][5:]} {f[3]}")
+            else:
+                ans.append("BAD " + o)
+        direct = out[nl + nt + ns:]
+        for i, o in enumerate(direct):
+            # instances of extent_line_direct_eq / parseRaw_sound
+            if not (o.startswith("same=1 sound=1 ") and o[len("same=1 sound=1 "):] == out[i]):
+                ans[i] = f"DIRECT-MISMATCH {o} | {out[i]}"
+        if len(direct) != nl:
+            ans.append("DIRECT-MISSING")
+        return {"answers": ans, "wf": inside > 0, "spec_checked": inside, "direct_checked": len(direct)}
     ans = core.parse_stream_answer(out[0]) if out else None
     chk = out[1].split() if len(out) > 1 and out[1] else []
     if chk and chk[0] == "ok":
